@@ -398,14 +398,53 @@ def project(text, ops_lines, facets):
 
 
 # spec-level self checks on the implementation trace alone (oracle, independent of the model)
+BATCH_OPS = ("newb", "new0b", "xchgb", "setrelb", "delb")
+REMOVAL_EVENTS = ("remove", "rem", "remrel")
+
+
 def self_checks(text, ops_lines):
     problems = []
+    obs_event = {}
     for n, res, logs, snap in parse_blocks(text):
-        opname = ops_lines[n - 1].split()[0] if 0 < n <= len(ops_lines) and ops_lines[n - 1].split() else "?"
+        toks = ops_lines[n - 1].split() if 0 < n <= len(ops_lines) else []
+        opname = toks[0] if toks else "?"
+        if opname == "world":
+            obs_event = {}
+        if opname == "obs" and len(toks) > 2:
+            obs_event[toks[1]] = toks[2]
         if "BAD" in res or (snap and "BAD" in snap) or any("BAD" in l for l in logs):
             problems.append((n, "component self-check failed (corrupted value)"))
         if snap and "!" in snap:
             problems.append((n, "an entity reported alive could not be read: " + snap[:80]))
+        if snap:
+            alive = set(re.findall(r"(?:^| )(e\d+)\{", snap))
+            for t in re.findall(r">(e\d+|\?[\d.]+)", snap):
+                if t not in alive:
+                    problems.append((n, "relation target %s is neither the zero entity nor alive" % t))
+                    break
+        cur_obs = None
+        for l in logs:
+            m = re.match(r"  cb (o\d+) (\S+)", l)
+            if m:
+                cur_obs = m.group(1)
+                # `?id.gen` is an entity without label (temporary entity of a `trynew` probe, or of an
+                # operation that panicked later); the zero entity is never the subject of an operation
+                if opname != "emit" and m.group(2) == "z":
+                    problems.append((n, "callback of %s reports %s, not an entity of the operation" % (cur_obs, m.group(2))))
+                continue
+            m = re.match(r"  q f\d+ total=(\d+) occ=(\d+)", l)
+            if m and int(m.group(2)) > 1:
+                problems.append((n, "the reported entity appears %s times in a query run inside the callback" % m.group(2)))
+            m = re.match(r"  look alive=(\d) locked=(\d)", l)
+            if m and cur_obs:
+                if m.group(1) == "0" and opname != "emit":
+                    problems.append((n, "callback of %s: the reported entity is not alive" % cur_obs))
+                ev = obs_event.get(cur_obs)
+                if m.group(2) == "0" and (ev in REMOVAL_EVENTS or opname in BATCH_OPS):
+                    problems.append((n, "callback of %s (%s event, op %s) ran on an unlocked world" % (cur_obs, ev, opname)))
+            m = re.match(r"  fn \S+ locked=(\d)", l)
+            if m and m.group(1) == "0":
+                problems.append((n, "batch callback ran on an unlocked world"))
         if opname == "query" and res.startswith("ok "):
             m = re.match(r"ok n=(\d+) at=(\S*) visit=(\S*)$", res)
             if m:
